@@ -40,6 +40,9 @@ theorem console_loop_eq :
 /-- src/comm.c creates the console line queue with DROP_OLDEST: the worker's enqueue can never sleep -/
 theorem console_queue_drops_oldest : Gen.C19.consoleQueueFlags &&& flagDropOldest ≠ 0 := by decide
 
+/-- `Wk.joinStep`: sleep while `state ≠ stopped ∧ elapsed < t`; afterwards `pthread_join` only when the state is STOPPED -/
+theorem join_loop_eq : Gen.C19.joinLoopOps = ("!=", "<") ∧ Gen.C19.joinJoinsOnlyWhenStopped = true := ⟨rfl, rfl⟩
+
 theorem timer_order_eq : Gen.C19.timerLoopOrder = true ∧ Gen.C19.timerStopOrder = true := ⟨rfl, rfl⟩
 
 theorem hb_protocol_eq :
@@ -142,6 +145,47 @@ theorem waiting_writer_wakes (s : BSys) (i : Nat) (w : BW) (hw : s.ws[i]? = some
     (s.step (.writer i)).ws[i]? = some { w with pc := .woken } ∧ (s.step (.writer i)).signaled = false := by
   simp only [BSys.step, BSys.writerStep, hw, hp, hs, if_true]
   exact ⟨getElem?_set_self' _ _ _ _ hw, by first | rfl | trivial⟩
+
+/-- a woken writer that finds room pushes its message (it never takes a `return false` exit: the size was tested
+    before the loop) -/
+theorem woken_writer_pushes (s : BSys) (h : s.Good) (i : Nat) (w : BW) (hw : s.ws[i]? = some w) (hp : w.pc = .woken)
+    (hroom : s.q.count < s.q.cap) : (s.step (.writer i)).accepted.length = s.accepted.length + 1 := by
+  obtain ⟨_, _, m, rest, htodo, hv⟩ := h.pend i w hw (by rw [hp]; decide)
+  simp only [BSys.step, BSys.writerStep, hw, hp, htodo]
+  obtain ⟨_, _, _, hspec⟩ := Q.enqueue_spec s.q h.inv m
+  generalize s.q.enqueue m = res at hspec
+  obtain ⟨q', r⟩ := res
+  simp only at hspec
+  cases hspec with
+  | badSize hs _ => exact absurd hs hv
+  | dropOldest _ hf _ _ _ => omega
+  | blocked _ hf _ _ _ => omega
+  | full _ hf _ _ _ => omega
+  | room _ _ _ => simp
+
+/-- **A drained queue gets a sleeping producer going again.**  In every reachable state (clear as the source has it)
+with an EMPTY queue, a writer asleep on `not_full` and no writer already on its way: that writer's next two steps are
+its wake-up and the push of its message — it does not have to wait for anybody. -/
+theorem drained_queue_releases_a_writer (cap mm fl : Nat) (q : Q) (hq : Q.create cap mm fl = some q)
+    (progs : List (List Msg)) (acts : List BAct) (i : Nat) (w : BW) :
+    let s := (BSys.init clearSignals q progs).run acts
+    s.q.count = 0 → s.ws[i]? = some w → w.pc = .waiting → ¬ s.someAt .woken →
+    ((s.step (.writer i)).step (.writer i)).accepted.length = s.accepted.length + 1 := by
+  intro s h0 hw hp hnw
+  obtain ⟨hg, _, _, hcs⟩ := BSys.good_run _ acts (BSys.good_init clearSignals hq progs)
+  have hsig : s.signaled = true := by
+    rcases hg.live (by rw [show s.clearSignals = _ from hcs]; rfl) ⟨i, w, hw, hp⟩ h0 with h | h
+    · exact h
+    · exact absurd h hnw
+  obtain ⟨hw1, _⟩ := waiting_writer_wakes s i w hw hp hsig
+  have hg1 := (BSys.good_step s (.writer i) hg).1
+  have hq1 : (s.step (.writer i)).q = s.q := by
+    simp only [BSys.step, BSys.writerStep, hw, hp, hsig, if_true]
+  have hacc : (s.step (.writer i)).accepted = s.accepted := by
+    simp only [BSys.step, BSys.writerStep, hw, hp, hsig, if_true]
+  have hroom : (s.step (.writer i)).q.count < (s.step (.writer i)).q.cap := by
+    rw [hq1, h0]; exact hg.inv.cap_pos
+  rw [woken_writer_pushes _ hg1 i _ hw1 rfl hroom, hacc]
 
 -- non-vacuity: two writers asleep on a full queue of capacity 1, the consumer clears: the event is set
 example :
